@@ -51,3 +51,9 @@ func (stp *VerifStepper[Type]) Buffer() []Type                { return stp.dsc.j
 func (stp *VerifStepper[Type]) InterruptInterval() time.Duration {
 	return stp.dsc.interruptInterval
 }
+
+// VerifTiming reports the timeout and the ticker period a discipline created by New
+// actually works with.
+func (dsc *Discipline[Type]) VerifTiming() (time.Duration, time.Duration) {
+	return dsc.opts.Timeout, dsc.interruptInterval
+}
